@@ -339,15 +339,24 @@ where
         Plan::DeSurplus { extra, check_trailing } => {
             // surplus elements are *different* from the real ones, so using one is visible
             let mut items: Vec<Item> = toks.iter().cloned().map(Item::Tok).collect();
-            for i in 0..*extra {
+            // `extra` encodes (count, content): count = extra % 32, content = extra / 32
+            let (count, content) = (*extra % 32, *extra / 32);
+            let one = match T::E::KIND { Elem::F32 => 0x3f80_0000u64, Elem::F64 => 0x3ff0_0000_0000_0000, _ => 1 };
+            for i in 0..count {
                 let b = bits[i % n];
-                let alt = match T::E::KIND {
-                    Elem::Bool => b ^ 1,
-                    Elem::F32 => (b ^ 0x0040_0000) & 0xffff_ffff,
-                    _ => b ^ 0x5,
+                let alt = match content {
+                    0 => match T::E::KIND {
+                        Elem::Bool => b ^ 1,
+                        Elem::F32 => (b ^ 0x0040_0000) & 0xffff_ffff,
+                        _ => b ^ 0x5,
+                    },
+                    1 => 0,                                   // zeros
+                    2 => one,                                 // ones
+                    _ => if i + 1 == count { one } else { 0 }, // (0, .., 0, 1): what a homogeneous row looks like
                 };
                 items.push(Item::Tok(Tok::from_elem(T::E::KIND, alt)));
             }
+            let extra = &count;
             let (r, st) = de_run::<T>(&honest(items, Some(n + extra), *check_trailing));
             out.fault_reached = true;
             if st.consumed > n {
@@ -1131,9 +1140,12 @@ pub fn plans(e: &Entry19) -> Vec<Plan> {
                     p.push(Plan::DeKind { k: j, wrong });
                 }
             }
-            for extra in 1..=2 {
-                p.push(Plan::DeSurplus { extra, check_trailing: true });
-                p.push(Plan::DeSurplus { extra, check_trailing: false });
+            // "rejects sequences of any other length": not only N+1 and N+2, and not only with arbitrary surplus content
+            for count in [1usize, 2, 3, 4, 6, 8, 12, 16] {
+                for content in 0..4usize {
+                    p.push(Plan::DeSurplus { extra: count + 32 * content, check_trailing: true });
+                    p.push(Plan::DeSurplus { extra: count + 32 * content, check_trailing: false });
+                }
             }
             for entry in 0..HOSTILE_ENTRIES.len() {
                 p.push(Plan::DeHostile { entry });
@@ -1203,6 +1215,12 @@ fn gen_value(e: &Entry19, seed: u64, ti: usize, vi: usize) -> Val {
                 match vi {
                     // pairwise distinct ordinary values 1, 2, 3, ...
                     0 => (0..n).map(|i| ordinal(el, i + 1)).collect(),
+                    // all zero; and "identity-like": ones where a square / affine matrix has its diagonal, zeros elsewhere
+                    4 => vec![ordinal(el, 0); n],
+                    5 => {
+                        let d = match n { 4 => 2, 9 => 3, 16 => 4, 6 => 2, 12 => 3, _ => 1 };
+                        (0..n).map(|i| if i / d == i % d && i / d < d { ordinal(el, 1) } else { ordinal(el, 0) }).collect()
+                    }
                     // every element a different lattice point
                     1 => (0..n).map(|i| gen_scalar_bits(el, &mut rng, Cls::Lattice(i + 7))).collect(),
                     2 => (0..n).map(|i| gen_scalar_bits(el, &mut rng, Cls::Lattice(NUM_F_LATTICE - 1 - (i % NUM_F_LATTICE)))).collect(),
